@@ -177,6 +177,7 @@ def _plain(v):
 
 def _impl_real(case):
     from gemdat.jumps import Jumps
+    from pymatgen.core.units import FloatWithUnit
     from gemdat.metrics import TrajectoryMetrics
     r = np.random.default_rng(case['seed'])
     m = [[6, 0, 0], [0, 6, 0], [0, 0, 6]]
@@ -219,7 +220,9 @@ def _impl_real(case):
         if j is not None:
             plan += [(n, j, 'matrix', (), {}), (n, j, 'counter', (), {}), (n, j, '_counter', (), {}),
                      (n, j, 'jump_diffusivity', (3,), {}), (n, j, 'jump_diffusivity', (2,), {}), (n, j, 'to_graph', (), {}),
-                     (n, j, 'collective', (), {}), (n, j, 'collective', (2.0,), {}), (n, j, 'rates', (2,), {}), (n, j, 'activation_energies', (2,), {})]
+                     (n, j, 'collective', (), {}), (n, j, 'collective', (2.0,), {}), (n, j, 'rates', (2,), {}), (n, j, 'activation_energies', (2,), {}),
+                     # arguments that compare (and hash) equal as numbers although they are other objects: a plain float, a float carrying a unit
+                     (n, j, 'collective', (3.5,), {}), (n, j, 'collective', (FloatWithUnit(3.5, 'bohr'),), {}), (n, j, 'collective', (FloatWithUnit(3.5, 'ang'),), {})]
             from gemdat.collective import Collective
             co = Collective(jumps=j, sites=tr.sites, lattice=traj.get_lattice(), max_steps=8, max_dist=3.5)
             plan += [(n, co, 'site_pair_count_matrix_labels', (), {}), (n, co, 'site_pair_count_matrix', (), {}), (n, co, 'multiple_collective', (), {})]
